@@ -47,13 +47,13 @@ PLANS["C02"] = {
     "own": ["grid", "drows"],
     "mc": [{
         "module": "MCGrid",
-        "quick": dict(MaxRows=3, MaxCells=2, MaxLate=1, MaxDetached=1, MaxHdr=2, MaxHist=6, ItemMode="plain"),
-        "thorough": dict(MaxRows=4, MaxCells=2, MaxLate=2, MaxDetached=2, MaxHdr=2, MaxHist=8, ItemMode="plain"),
+        "quick": dict(MaxRows=3, MaxCells=2, MaxLate=1, MaxDetached=1, MaxHdr=2, MaxHist=6, ItemMode="plain", ReAdd=True),
+        "thorough": dict(MaxRows=4, MaxCells=2, MaxLate=2, MaxDetached=1, MaxHdr=2, MaxHist=8, ItemMode="plain", ReAdd=True),
         "properties": ["RowsAppendOnly"],
     }],
     "simulate": [{"module": "MCGrid",
-                  "quick": dict(MaxRows=40, MaxCells=3, MaxLate=3, MaxDetached=3, MaxHdr=3, ItemMode="plain", _num=100, _depth=30),
-                  "thorough": dict(MaxRows=60, MaxCells=4, MaxLate=4, MaxDetached=4, MaxHdr=4, ItemMode="plain", _num=3000, _depth=40)}],
+                  "quick": dict(MaxRows=40, MaxCells=3, MaxLate=3, MaxDetached=3, MaxHdr=3, ItemMode="plain", ReAdd=True, _num=100, _depth=30),
+                  "thorough": dict(MaxRows=60, MaxCells=4, MaxLate=4, MaxDetached=4, MaxHdr=4, ItemMode="plain", ReAdd=True, _num=3000, _depth=40)}],
     "random": [{"gen": gens.gen_grid}],
     "min_scenarios": {"quick": 1000, "thorough": 10000},
     "assumptions": [
@@ -138,6 +138,12 @@ PLANS["C12"] = {
         "quick": dict(OwnerKinds=Raw(ALLOWN), Keys=Raw('{"k_int", "k_int64"}'), Vals=Raw('{"v1", "nil"}'), MaxHist=6, MaxCopies=1),
         "thorough": dict(OwnerKinds=Raw(ALLOWN), Keys=Raw('{"k_int", "k_int64", "k_str"}'), Vals=Raw('{"v1", "v2", "nil"}'), MaxHist=6, MaxCopies=2),
         "properties": ["Independence"],
+    }, {
+        # keys distinguished by identity: two distinct pointers to equal values
+        "module": "MCProps",
+        "quick": dict(OwnerKinds=Raw('{"cell", "cellvar", "row"}'), Keys=Raw('{"k_p1", "k_p2", "k_sA"}'), Vals=Raw('{"v1", "nil"}'), MaxHist=5, MaxCopies=1),
+        "thorough": dict(OwnerKinds=Raw(ALLOWN), Keys=Raw('{"k_p1", "k_p2", "k_sA", "k_sB"}'), Vals=Raw('{"v1", "v2", "nil"}'), MaxHist=5, MaxCopies=1),
+        "properties": ["Independence"],
     }],
     "random": [{"gen": gens.gen_props}],
     "min_scenarios": {"quick": 5000, "thorough": 50000},
@@ -192,6 +198,11 @@ PLANS["C03"] = {
         "quick": _textmc('{"e", "a", "m"}', 2, 2, "{}", '{"default", "none"}', "{0, 1, 2}"),
         "thorough": _textmc('{"e", "a", "w", "m"}', 3, 2, "{}", '{"default", "none"}', "{0, 1, 2}"),
         "subst": {"quick": [{"n": 1}], "thorough": [{"n": 1}, {"n": 2}]},
+    }, {
+        # one line per text line of the tallest cell, also when an item understates / overstates its height
+        "module": "MCRender",
+        "quick": _textmc('{"a", "m", "H1", "H3"}', 1, 2, "{}", '{"default", "none"}', "{0, 1}"),
+        "thorough": _textmc('{"e", "a", "m", "H1", "H3"}', 2, 2, "{}", '{"default", "none"}', "{0, 1, 2}"),
     }],
     "random": [{"gen": gens.gen_text}],
     "min_scenarios": {"quick": 3000, "thorough": 50000},
@@ -312,18 +323,18 @@ PLANS["C09"] = {
     "mc": [
         # every build history up to the bound (plain items)
         {"module": "MCGrid",
-         "quick": dict(MaxRows=3, MaxCells=2, MaxLate=1, MaxDetached=1, MaxHdr=1, MaxHist=5, ItemMode="plain"),
-         "thorough": dict(MaxRows=3, MaxCells=2, MaxLate=1, MaxDetached=1, MaxHdr=2, MaxHist=7, ItemMode="plain"),
+         "quick": dict(MaxRows=3, MaxCells=2, MaxLate=1, MaxDetached=1, MaxHdr=1, MaxHist=5, ItemMode="plain", ReAdd=False),
+         "thorough": dict(MaxRows=3, MaxCells=2, MaxLate=1, MaxDetached=1, MaxHdr=2, MaxHist=7, ItemMode="plain", ReAdd=False),
          "run_opts": {"extra": ["-final", "renderall"]}},
         # smaller shapes with items whose declared size disagrees with their text
         {"module": "MCGrid",
-         "quick": dict(MaxRows=2, MaxCells=1, MaxLate=1, MaxDetached=1, MaxHdr=1, MaxHist=5, ItemMode="mixed"),
-         "thorough": dict(MaxRows=2, MaxCells=1, MaxLate=2, MaxDetached=1, MaxHdr=1, MaxHist=6, ItemMode="mixed"),
+         "quick": dict(MaxRows=2, MaxCells=1, MaxLate=1, MaxDetached=1, MaxHdr=1, MaxHist=5, ItemMode="mixed", ReAdd=False),
+         "thorough": dict(MaxRows=2, MaxCells=1, MaxLate=2, MaxDetached=1, MaxHdr=1, MaxHist=6, ItemMode="mixed", ReAdd=False),
          "run_opts": {"extra": ["-final", "renderall"]}},
     ],
     "simulate": [{"module": "MCGrid",
-                  "quick": dict(MaxRows=40, MaxCells=3, MaxLate=3, MaxDetached=3, MaxHdr=3, ItemMode="mixed", _num=150, _depth=30),
-                  "thorough": dict(MaxRows=60, MaxCells=4, MaxLate=4, MaxDetached=4, MaxHdr=4, ItemMode="mixed", _num=3000, _depth=40),
+                  "quick": dict(MaxRows=40, MaxCells=3, MaxLate=3, MaxDetached=3, MaxHdr=3, ItemMode="mixed", ReAdd=False, _num=150, _depth=30),
+                  "thorough": dict(MaxRows=60, MaxCells=4, MaxLate=4, MaxDetached=4, MaxHdr=4, ItemMode="mixed", ReAdd=False, _num=3000, _depth=40),
                   "run_opts": {"extra": ["-final", "renderall"], "every": False}}],
     "random": [{"gen": gens.gen_total, "run_opts": {"every": False}}],
     "min_scenarios": {"quick": 5000, "thorough": 50000},
@@ -440,8 +451,8 @@ PLANS["C19"] = {
     "facets": "none",
     "own": ["res.auto", "res.styles"],
     "mc": [{"module": "MCAuto",
-            "quick": dict(RegNames=Raw('{"mine", "a.b", "CSV", "texttable"}'), MaxReg=2),
-            "thorough": dict(RegNames=Raw('{"mine", "Mine", "a.b", "csv", "CSV", "texttable", "a.b.c"}'), MaxReg=2)}],
+            "quick": dict(RegNames=Raw('{"mine", "a.b", "CSV", "texttable", "csv-friendly", "dashed"}'), MaxReg=2),
+            "thorough": dict(RegNames=Raw('{"mine", "Mine", "a.b", "csv", "CSV", "texttable", "a.b.c", "csv-friendly", "html5", "dashed", "texttable-x"}'), MaxReg=2)}],
     "random": [{"gen": gens.gen_auto}],
     "min_scenarios": {"quick": 500, "thorough": 5000},
     "assumptions": [
